@@ -1157,30 +1157,33 @@ LEVEL_TEXT = (
     "Var assignment, auto-creating operator[], <<, resize, removeAt, remove, clear, extend, clone, ==, toString): "
     "(1) accessors_*: a Var built from int/unsigned/Long/double/float/bool/string reports that type and value (unsigned >= 2^31 -> "
     "NUMBER, inline representation exactly below 8 bytes, same bytes and length on both sides of the boundary); "
-    "(2) eq_iff_content (+ eq_refl/eq_symm/eq_trans): v == w is true exactly when both denote the same abstract tree (numbers by value "
-    "across INT/NUMBER/FLOAT, strings by bytes across STRING/SSTRING, containers element-wise, NONE = NONE), hence an equivalence; "
-    "(3) history_safe_partial / history_never_touches_freed: for every history of guarded statements from the initial state in which "
-    "extend targets root variables (all other statements at any depth, incl. assigning a Var one of its own elements/properties and "
-    "type-changing assignment to shared Vars) the reference-count invariant holds in every reached state (each handle points to a live "
-    "block of its kind, rc = number of handles, rc > 0, objects sorted, no block contains itself) and no statement reads or releases a "
-    "released block, indexes outside an element array or finds a zero count; "
-    "(4) assign_spec_partial: in every state satisfying the invariant an executed p = q (q possibly inside p) leaves at p exactly the "
-    "source value, which denotes the same tree as before; (5) clone_deep_partial: clone() only appends blocks, denotes the same tree, and "
-    "denotes it in every later heap that keeps the appended blocks, whatever happens to everything the original reaches; "
+    "(2) eq_iff_content (+ eq_refl/eq_symm/eq_trans, numbers_compare_numerically): v == w is true exactly when both denote the same "
+    "abstract tree (numbers by value across INT/NUMBER/FLOAT, strings by bytes across STRING/SSTRING, containers element-wise, "
+    "NONE = NONE), hence an equivalence; "
+    "(3) history_safe (full) / history_never_touches_freed: for EVERY history of guarded statements from the initial state — typed and "
+    "Var assignment incl. a Var's own elements/properties and type changes of shared Vars, auto-creating paths of any depth, append, "
+    "resize, remove, clear, extend, clone, copy, drop, constructors — the invariant holds in every reached state (each handle points to "
+    "a live block of its kind, rc = number of handles > 0, objects sorted, handle graph acyclic) and no statement reads or releases a "
+    "released block, indexes outside an element array or finds a zero count; no_leak: when no root holds a container any more, no "
+    "block is live; no_orphan_block; "
+    "(4) assign_spec (full, over all histories) / assign_spec_state / assign_then_equal: an executed p = q (q possibly inside p, at any "
+    "depth) leaves the Var at p readable, holding exactly the source value, which denotes the same tree as before, and p == every Var "
+    "denoting that tree; (5) clone_deep_partial: clone() only appends blocks, denotes the same tree, and denotes it in every later heap "
+    "that keeps the appended blocks, whatever happens to everything the original reaches; "
     "(6) var_shared_growth_counterexample: without the guard, Var c = a; a << ... leaves c with a released block (the known finding). "
     "The model is tied to the current source on every run by the correspondence check (real library under ASan/LSan vs compiled model "
     "vs an independent python simulation with native reference semantics) over generated histories."
 )
 LEVEL_NOTE = (
-    "Partial statements (full versions kept as `def ..._full : Prop` in lean/AslProps/C04.lean): history_safe_full (missing: extend with a "
-    "nested target, which needs an acyclicity invariant; absence of leaks when all roots are dropped — LeakSanitizer checks it on every "
-    "run; recursion-fuel adequacy of the driver's traversal bound h.length+2), assign_spec_full (missing: a nested target survives the "
-    "release of its old content), clone_deep_full (missing: footprint theorem over later statements). "
     "All theorems hold under the known-finding hypothesis built into the guarded statements: no operation grows a container block whose "
-    "rc > 1 (known: property=C04 key=shared-growth; generator and harness skip exactly those operations, probe prints KNOWN-FINDING). "
-    "Model-side assertions relied on and validated only by K: the extend loop refuses a property that is the target itself (the harness "
-    "guard refuses such calls first); clone is modelled by its net effect (transient rc bumps cancel); typed assignments write the new "
-    "value before releasing the old one. K-only (no theorem): toString/%.15g/%.7g formatting, atoi/atof conversions, int->float rounding, "
+    "rc > 1 (known: property=C04 key=shared-growth; generator and harness skip exactly those operations, probe prints KNOWN-FINDING), "
+    "and no statement makes a container contain itself (excluded by the property; refused by the guard). "
+    "Partial: clone_deep_full (kept as `def ... : Prop`; missing: a footprint theorem that later statements not mentioning the clone's "
+    "root never modify the clone's blocks). Not proved: that the driver's traversal bound h.length+2 always suffices (a statement may be "
+    "refused with `fuel`; never observed by K). "
+    "Model-side choices validated only by K: the extend loop re-checks reachability of the target from each property (the harness guard "
+    "refuses such calls first); clone is modelled by its net effect (transient rc bumps cancel); typed assignments write the new value "
+    "before releasing the old one. K-only (no theorem): toString/%.15g/%.7g formatting, atoi/atof conversions, int->float rounding, "
     "capacity policy (3, x2, max(2s,m)) and rc values (compared through array().rc()). Doubles are exact dyadic rationals; NaN, "
     "infinities, -0 are outside model and generator. Three defects found while building the check were repaired in /repo "
     "(193448d, 63d8c00, 02a4aa4); witnesses in corpus/C04/fixed.ops."
